@@ -763,27 +763,26 @@ def specializeCommands(
             d0, d1 = op1[:2]
             d2, d3 = op2[:2]
 
+            # No 'continue' in here: stackUse must be updated below
+            # also when the two curves cannot be merged.
             if d1 == "r" or d2 == "r" or d0 == d3 == "r":
-                continue
-
-            d = _mergeCategories(d1, d2)
+                d = None
+            else:
+                d = _mergeCategories(d1, d2)
             if d is None:
-                continue
-            if d0 == "r":
+                pass
+            elif d0 == "r":
                 d = _mergeCategories(d, d3)
-                if d is None:
-                    continue
-                new_op = "r" + d + "curveto"
+                if d is not None:
+                    new_op = "r" + d + "curveto"
             elif d3 == "r":
                 d0 = _mergeCategories(d0, _negateCategory(d))
-                if d0 is None:
-                    continue
-                new_op = d0 + "r" + "curveto"
+                if d0 is not None:
+                    new_op = d0 + "r" + "curveto"
             else:
                 d0 = _mergeCategories(d0, d3)
-                if d0 is None:
-                    continue
-                new_op = d0 + d + "curveto"
+                if d0 is not None:
+                    new_op = d0 + d + "curveto"
 
         # Make sure the stack depth does not exceed (maxstack - 1), so
         # that subroutinizer can insert subroutine calls at any point.
